@@ -14,7 +14,7 @@ THOROUGH_N = 2400
 SHARD = 40
 CASE_TYPE = "case37"
 COQ_PRELUDE = "From MV Require Import Model.Tnet Model.SaveStream Corr.C36.\nFrom MV Require Import Corr.C37.\n"
-TRANSLATORS = ["flowreader_except"]
+TRANSLATORS = ["flowreader_except", "connection_literals"]
 RULE = ("kinds: rotate 12% = the real Save addon with a strftime() save_stream_file (minute/second/day/directory patterns, optional filter, append mode) under a fake clock (save.datetime patched) whose ticks cross rotation boundaries between interleaved hooks of 2-5 flows of every type; after EVERY hook all stream files are re-read with FlowReader and must hold exactly the finished matching flows, in order, each complete; reconf 14% = the real Save addon driven through the real options manager: 3-10 events, save_stream_file changes to three openable paths (one needing mkdir), a directory and a path under a regular file (OptionsError + rollback), append/overwrite, switching off, pre-existing files, interleaved with finished flows of every type; after EVERY event all files are re-read (also a Coq case against Model/SaveStream.v); trunc-stub 34% = 1-4 small generated records (value trees with floats/UTF-8/nested dicts, occasionally a "
         "non-dict or a record on which from_state raises) read through the real FlowReader (from_state stubbed) at EVERY "
         "truncation offset; trunc-real 12% = files of 1-3 real flows of every type (generated field values) written by "
